@@ -3,6 +3,7 @@ package main
 import (
 	"encoding/json"
 	"fmt"
+	"strings"
 	"time"
 
 	"github.com/crillab/gophersat/solver"
@@ -303,6 +304,9 @@ func runConstrCase(o *Oracle, d json.RawMessage, oc *Outcome) {
 	oc.Tag("front:" + c.Front)
 	sem := semAll(c.Constrs)
 	n := maxVarConstrs(c.Constrs)
+	for _, k := range c.Constrs {
+		constructorDiff(o, oc, k)
+	}
 	pb := buildConstrProblem(&c)
 	entry := "solver.Parse" + map[string]string{"card": "CardConstrs", "pb": "PBConstrs"}[c.Front] + "+Solve"
 	if pb.Status == solver.Indet || len(pb.Units) > 0 {
@@ -349,5 +353,55 @@ func runConstrCase(o *Oracle, d json.RawMessage, oc *Outcome) {
 	}
 	if s.Stats.NbConflicts > 0 {
 		oc.Tag("conflicts>0")
+	}
+}
+
+
+func fmtPBC(p solver.PBConstr, sep string) string {
+	w := p.Weights
+	if w == nil {
+		w = make([]int, len(p.Lits))
+		for i := range w {
+			w[i] = 1
+		}
+	}
+	return encInts(p.Lits) + sep + encInts(w) + sep + fmt.Sprint(p.AtLeast)
+}
+
+// constructorDiff: the public constructor applied to the caller's arguments must build
+// exactly what the Lean mirror GS.Constr.* builds (same literals, weights and degree, in the
+// same order).
+func constructorDiff(o *Oracle, oc *Outcome, k Constr) {
+	l := append([]int(nil), k.Lits...)
+	w := append([]int(nil), k.Weights...)
+	var got, want, name string
+	switch k.Kind {
+	case "gteq":
+		name = "GtEq"
+		got = fmtPBC(solver.GtEq(l, w, k.N), " | ")
+		want = o.Ask(fmt.Sprintf("gteq %s | %s | %d", encInts(k.Lits), encInts(k.Weights), k.N))
+	case "lteq":
+		name = "LtEq"
+		got = fmtPBC(solver.LtEq(l, w, k.N), " | ")
+		want = o.Ask(fmt.Sprintf("lteq %s | %s | %d", encInts(k.Lits), encInts(k.Weights), k.N))
+	case "eq":
+		name = "Eq"
+		var parts []string
+		for _, c := range solver.Eq(l, w, k.N) {
+			parts = append(parts, fmtPBC(c, " / "))
+		}
+		got = strings.Join(parts, " ; ")
+		want = o.Ask(fmt.Sprintf("eq %s | %s | %d", encInts(k.Lits), encInts(k.Weights), k.N))
+	case "atmost":
+		name = "AtMost"
+		c := solver.AtMost(l, k.N)
+		got = encInts(c.Lits) + " | " + fmt.Sprint(c.AtLeast)
+		want = o.Ask(fmt.Sprintf("atmost %s | %d", encInts(k.Lits), k.N))
+	default:
+		return
+	}
+	oc.Corr++
+	if got != want {
+		oc.Fail("corr", "constructor-mirror", "solver."+name, "%s: Go built %q, the Lean mirror %q", k.String(), got, want)
 	}
 }
